@@ -1,8 +1,153 @@
 package main
 
-import "regexp"
+// Regular expressions on symbolic data (used by parser.Scan on a symbolic template).
+//
+// Go's regexp engine is not executed symbolically. Instead the compiled program
+// of the pattern *the current source built* is inspected: every instruction
+// tests a rune against a set of ranges (or an empty-width condition that
+// depends on "is a word character" / "is a newline"). Two ASCII bytes that
+// belong to exactly the same sets are indistinguishable to the matcher, so the
+// 128 ASCII bytes fall into a few cells. For each symbolic byte the path forks
+// (through the solver) on its cell, the real regexp runs natively on a
+// string of cell representatives, and the match positions it returns are exact
+// for every string of that cell pattern, leftmost-first priority included.
+// Non-ASCII bytes are outside the fragment: the path is inconclusive.
 
-// scanStub: FindAllStringSubmatchIndex on symbolic data (DESIGN §2.7b). Filled in later.
+import (
+	"regexp"
+	"regexp/syntax"
+	"sort"
+	"sync"
+	"unicode"
+)
+
+type byteCells struct {
+	cellOf [128]int
+	reps   []byte   // representative byte of each cell
+	member [][]byte // members of each cell
+}
+
+var cellCache sync.Map // pattern -> *byteCells
+
+func cellsFor(re *regexp.Regexp) (*byteCells, error) {
+	pat := re.String()
+	if c, ok := cellCache.Load(pat); ok {
+		return c.(*byteCells), nil
+	}
+	rx, err := syntax.Parse(pat, syntax.Perl)
+	if err != nil {
+		return nil, err
+	}
+	prog, err := syntax.Compile(rx.Simplify())
+	if err != nil {
+		return nil, err
+	}
+	sigs := make([]string, 128)
+	for b := 0; b < 128; b++ {
+		sig := make([]byte, 0, len(prog.Inst)+2)
+		for i := range prog.Inst {
+			in := &prog.Inst[i]
+			switch in.Op {
+			case syntax.InstRune, syntax.InstRune1, syntax.InstRuneAny, syntax.InstRuneAnyNotNL:
+				if in.MatchRune(rune(b)) {
+					sig = append(sig, '1')
+				} else {
+					sig = append(sig, '0')
+				}
+			}
+		}
+		// empty-width assertions look at word characters and newlines
+		if b == '\n' {
+			sig = append(sig, 'n')
+		}
+		if b == '_' || unicode.IsLetter(rune(b)) || unicode.IsDigit(rune(b)) {
+			sig = append(sig, 'w')
+		}
+		sigs[b] = string(sig)
+	}
+	idx := map[string]int{}
+	c := &byteCells{}
+	for b := 0; b < 128; b++ {
+		k, ok := idx[sigs[b]]
+		if !ok {
+			k = len(c.reps)
+			idx[sigs[b]] = k
+			c.reps = append(c.reps, byte(b))
+			c.member = append(c.member, nil)
+		}
+		c.cellOf[b] = k
+		c.member[k] = append(c.member[k], byte(b))
+	}
+	cellCache.Store(pat, c)
+	return c, nil
+}
+
+// cellTerm is the condition "byte t lies in cell k".
+func (e *Exec) cellTerm(t *Term, members []byte) *Term {
+	tt := e.tt
+	// group members into maximal runs
+	sort.Slice(members, func(i, j int) bool { return members[i] < members[j] })
+	acc := tt.Bool(false)
+	for i := 0; i < len(members); {
+		j := i
+		for j+1 < len(members) && members[j+1] == members[j]+1 {
+			j++
+		}
+		if i == j {
+			acc = tt.Or(acc, tt.Eq(t, tt.BV(uint64(members[i]), 8)))
+		} else {
+			acc = tt.Or(acc, tt.And(tt.BVCmp("bvuge", t, tt.BV(uint64(members[i]), 8)), tt.BVCmp("bvule", t, tt.BV(uint64(members[j]), 8))))
+		}
+		i = j + 1
+	}
+	return acc
+}
+
+// scanStub: FindAllStringSubmatchIndex on data with symbolic bytes.
 func (e *Exec) scanStub(re *regexp.Regexp, s Str, n Value) Value {
-	panic(abortErr{"fragment", "regexp on symbolic data"})
+	cells, err := cellsFor(re)
+	if err != nil {
+		panic(abortErr{"fragment", "cannot analyse pattern " + re.String() + ": " + err.Error()})
+	}
+	buf := make([]byte, s.Len())
+	for i := 0; i < s.Len(); i++ {
+		switch b := s.at(i).(type) {
+		case int64:
+			if b >= 0x80 {
+				panic(abortErr{"fragment", "non-ASCII byte in data matched by a regexp on symbolic input"})
+			}
+			buf[i] = cells.reps[cells.cellOf[b]]
+		case Sym:
+			if !e.path.branch(e, e.tt.BVCmp("bvult", b.t, e.tt.BV(0x80, 8)), "regexp ascii") {
+				panic(abortErr{"fragment", "non-ASCII byte in data matched by a regexp on symbolic input"})
+			}
+			chosen := -1
+			// largest cells last: their condition is implied once the others are excluded
+			order := make([]int, len(cells.reps))
+			for k := range order {
+				order[k] = k
+			}
+			sort.SliceStable(order, func(a, b int) bool { return len(cells.member[order[a]]) < len(cells.member[order[b]]) })
+			for _, k := range order[:len(order)-1] {
+				if e.path.branch(e, e.cellTerm(b.t, append([]byte{}, cells.member[k]...)), "regexp cell") {
+					chosen = k
+					break
+				}
+			}
+			if chosen < 0 {
+				chosen = order[len(order)-1]
+			}
+			buf[i] = cells.reps[chosen]
+		}
+	}
+	e.path.noteNative("(*regexp.Regexp).FindAllStringSubmatchIndex (symbolic data: byte-cell abstraction of the compiled pattern, ASCII only)")
+	ms := re.FindAllStringSubmatchIndex(string(buf), int(e.needInt(n, "regexp n")))
+	if ms == nil {
+		return Slice{}
+	}
+	o := e.newObj(len(ms), "matches")
+	for i, m := range ms {
+		o.cells[i] = e.mkIntSlice(m)
+	}
+	return Slice{arr: o, len: len(ms), cap: len(ms)}
 }
